@@ -327,7 +327,7 @@ func (x *Exec) atReturn(fr *Frame, c *Contract, entry, st *State, params, result
 				st.Assume(eca.Bool(cl.Expr))
 			}
 			for _, f := range x.findings {
-				if f.Status != "open" || f.Property != x.prop || f.Observed == "" {
+				if f.Status != "open" || (f.Property != x.prop && x.depOf == "") || f.Observed == "" {
 					continue
 				}
 				for _, pat := range f.Obligations {
